@@ -689,6 +689,11 @@ class Extractor:
         for x, y in ((a, b), (b, a)):
             if x[0] == 'first' and y == NONE:
                 return mk_not(mk_any(x[1], x[2]))
+        for x, y in ((a, b), (b, a)):
+            # a freshly built string / container is never None
+            if y == NONE and (x[0] in ('concat', 'list', 'dict', 'filtermap', 'listcat', 'dictcomp')
+                              or (x[0] == 'lit' and x[1] == 'str') or _is_new(x)):
+                return FALSE
         if a[0] in ('const', 'lit') and b[0] in ('const', 'lit'):
             if a[0] == 'lit' and b[0] == 'lit' and {a[1], b[1]} <= {'int', 'float'}:
                 return TRUE if float(a[2]) == float(b[2]) else FALSE
@@ -1707,6 +1712,9 @@ def canonical_table(paths, drop_env=False):
         # conditionals inside the outcome that test an atom of this very row are decided by the row
         for i in (range(len(atoms)) if has_bool_store else rel_ite):
             out_ = _assume(out_, atoms[i], bits[i])
+        if rel_ite and isinstance(out_, tuple) and out_ and out_[0] == 'out' and "'ite'" in repr(out_):
+            # ... also when the test is a formula over several atoms of the row
+            out_ = ('out',) + tuple(_resolve_ites(x, val) if isinstance(x, tuple) else x for x in out_[1:])
         # under a true `X == c` (c a constant) X is c
         for i in rel_eqc:
             if bits[i]:
@@ -1750,7 +1758,31 @@ def canonical_table(paths, drop_env=False):
     return ('table', eatoms, tuple(table))
 
 
+def _resolve_ites(t, val):
+    """conditional values whose test is decided by the row's valuation (every atom of the test is a row atom) take the
+    selected branch"""
+    if not isinstance(t, tuple) or not t or val is None:
+        return t
+    if t[0] in ('table', 'bf', 'out'):
+        return t
+    if t[0] == 'ite' and len(t) == 4:
+        acc = set()
+        try:
+            atoms_of(t[1], acc)
+        except Exception:
+            acc = None
+        if acc is not None and acc and all(a in val for a in acc):
+            try:
+                return _resolve_ites(t[2] if ev(t[1], val) else t[3], val)
+            except Exception:
+                pass
+    return tuple(_resolve_ites(x, val) if isinstance(x, tuple) else x for x in t)
+
+
 def outcome(q: Path, val=None):
+    if val is not None and q.ret is not None and _find_ite(q.ret) is not None:
+        q = q.clone()
+        q.ret = _resolve_ites(q.ret, val)
     effs = []
     final = {}
     for e in q.effects:
